@@ -106,6 +106,7 @@ fn inner(prop: &str, mut t: Tape, rep: &mut WorldReport) {
             force_min_utxo: None,
             rich_directives,
             optional_bias: false,
+            datum_bias: false,
         },
     );
     let source = program.source();
@@ -120,8 +121,9 @@ fn inner(prop: &str, mut t: Tape, rep: &mut WorldReport) {
             return;
         }
     };
+    let cluster = t.chance(1, 12);
     let ledger_cfg = LedgerCfg {
-        size: match t.weighted(&[10, 3, 1, 2]) {
+        size: match if cluster { 3 } else { t.weighted(&[10, 3, 1, 2]) } {
             0 => 1 + t.index(6),
             1 => 6 + t.index(12),
             2 => 45 + t.index(16),
@@ -129,6 +131,7 @@ fn inner(prop: &str, mut t: Tape, rep: &mut WorldReport) {
             _ => 17 + t.index(33),
         },
         dist: match (profile, t.draw(4)) {
+            _ if cluster => AmountDist::Cluster(*t.pick(&[1_000_000_000i128, 5_000_000_000, 1 << 32, 20_000_000_000, 1_000_000_000_000])),
             (Profile::Boundary, 0..=2) => AmountDist::Boundary,
             (Profile::Fee, 0..=1) => AmountDist::Boundary,
             (Profile::Selection, 0..=2) => AmountDist::Tight,
@@ -296,6 +299,8 @@ fn run_e2e(
     let served = w.lock().unwrap().served.clone();
     // selection clauses that do not depend on the round's fee: address, ref, arity, collateral, served, disjointness
     let its = intents(program, txspec, args, None, None);
+    // per compile round: did some block's bound UTxOs fail to cover its fee-dependent threshold?
+    let mut below_threshold: Vec<bool> = vec![false; res.rounds.len()];
     if !byz {
         for (ri, r) in res.rounds.iter().enumerate() {
             let b = bindings_of(&r.tir);
@@ -303,8 +308,44 @@ fn run_e2e(
                 sig.u64(v.len() as u64);
             }
             let rctx = format!("{ctx}, round {ri}");
-            check_selection(rep, &its, &b, &served, &rctx);
+            // the fee this round was evaluated with is in the round's own TIR: thresholds that
+            // mention `fees` are judged with exactly that fee (min_utxo terms stay unjudged)
+            let fee_in = match &r.tir.fees {
+                tir::Expression::Assets(a) if a.len() == 1 => match &a[0].amount {
+                    tir::Expression::Number(n) => Some(*n),
+                    _ => None,
+                },
+                tir::Expression::Number(n) => Some(*n),
+                _ => None,
+            };
+            let its_r = if fee_in.is_some() { intents(program, txspec, args, fee_in, None) } else { its.clone() };
+            check_selection(rep, &its_r, &b, &served, &rctx);
             check_disjoint(rep, &b, &rctx);
+            // C05: "every fee-dependent input threshold was computed with that same fee"
+            for (spec, it) in txspec.inputs.iter().zip(its_r.iter()) {
+                let fee_dependent = spec.min.as_ref().map(|m| m.0.iter().any(|(_, t)| matches!(t, Term::Fees))).unwrap_or(false);
+                let (Some(min), Some(sel), true) = (&it.min, b.get(&it.name), fee_dependent) else { continue };
+                let mut sum = Value::new();
+                for u in sel {
+                    value_add(&mut sum, &utxo_value(u));
+                }
+                let covered = if it.many { value_covers(&sum, min) } else { sel.iter().all(|u| value_covers(&utxo_value(u), min)) };
+                if !covered {
+                    below_threshold[ri] = true;
+                    rep.violate(
+                        "C05",
+                        "F3-threshold",
+                        it.combo(),
+                        format!(
+                            "{rctx}: block `{}` has a fee-dependent min_amount which, with the fee {} this round was evaluated with, is {} - not covered by what was bound ({})",
+                            it.name,
+                            fee_in.unwrap_or(0),
+                            show_value(min),
+                            show_value(&sum)
+                        ),
+                    );
+                }
+            }
         }
     }
     match &res.outcome {
@@ -330,9 +371,25 @@ fn run_e2e(
                     check_body_inputs(rep, &bindings_of(&last.tir), &d, ctx);
                 }
                 let extreme = args.values().any(|a| matches!(a, tx3_tir::reduce::ArgValue::Int(v) if v.unsigned_abs() > (1u128 << 125)));
-                let hint = if extreme { "int-arg-near-i128-limit" } else { "" };
+                // a negative change is a listed finding only where the template itself spends more than
+                // its min_amount guarantees; if the selection does not even cover the threshold, the
+                // cause lies elsewhere and the shape says so
+                let last_ok = res.rounds.iter().rposition(|r| r.out.is_ok());
+                let uncovered = last_ok.map(|i| below_threshold[i]).unwrap_or(false);
+                let hint = if extreme {
+                    "int-arg-near-i128-limit"
+                } else if uncovered {
+                    "selection-below-its-threshold"
+                } else {
+                    ""
+                };
                 check_balance(rep, &d, &served, hint, ctx);
                 check_echo(rep, program, txspec, args, &d, ctx);
+                if !extreme {
+                    if let Some(last) = res.rounds.iter().rev().find(|r| r.out.is_ok()) {
+                        check_echo_outputs(rep, program, txspec, args, &d, &bindings_of(&last.tir), ctx);
+                    }
+                }
             }
             if prop == "C10" {
                 if let Some(last) = res.rounds.iter().rev().find(|r| r.out.is_ok()) {
@@ -562,12 +619,57 @@ fn check_completeness(
         rep.probe("cmp-skipped-window");
         return;
     }
+    let combo = b.combo();
     if pos > 0 {
-        // later blocks: only what was actually presented to the selector counts as untaken
+        // later blocks.  Route 1 (counting): when every earlier regular block is a single-UTxO block,
+        // at most `k` candidates can have been taken, whichever they were; if a cover survives the
+        // loss of any k candidates, selection must succeed.
+        let earlier: Vec<&BlockIntent> = names[..pos].iter().filter_map(|n| its.iter().find(|x| x.name == *n)).filter(|x| !x.collateral).collect();
+        let k = earlier.len();
+        if !b.collateral && earlier.iter().all(|x| !x.many) {
+            if !b.many {
+                let covering = wset.iter().filter(|(_, u)| value_covers(&u.value, min)).count();
+                if covering > k {
+                    rep.violate(
+                        "C03",
+                        "CMP-single",
+                        format!("{combo}/later-block"),
+                        format!(
+                            "{ctx}: block `{failed}` reported unresolved although {covering} candidates each meet every constraint and cover {}, and the {k} earlier single-UTxO block(s) can have taken at most {k} of them",
+                            show_value(min)
+                        ),
+                    );
+                    return;
+                }
+            } else if !min.is_empty() {
+                let mut survives = !wset.is_empty();
+                for (class, need) in min.iter() {
+                    let mut amounts: Vec<i128> = wset.iter().map(|(_, u)| u.value.get(class).copied().unwrap_or(0)).collect();
+                    amounts.sort_unstable_by(|a, b| b.cmp(a));
+                    let rest: i128 = amounts.iter().skip(k).sum();
+                    if rest < *need {
+                        survives = false;
+                    }
+                }
+                if survives {
+                    rep.violate(
+                        "C03",
+                        "CMP-many",
+                        format!("{combo}/later-block"),
+                        format!(
+                            "{ctx}: multi-UTxO block `{failed}` reported unresolved although its {} candidates still cover {} after the loss of any {k} of them to the {k} earlier single-UTxO block(s)",
+                            wset.len(),
+                            show_value(min)
+                        ),
+                    );
+                    return;
+                }
+            }
+        }
+        // Route 2: only what was actually presented to the selector in this block's fetch counts as untaken
         let Some(req) = fetch_reqs.get(pos) else { return };
         wset.retain(|(k, _)| req.contains(k));
     }
-    let combo = b.combo();
     if !b.many || b.collateral {
         if let Some((k, u)) = wset.iter().find(|(_, u)| value_covers(&u.value, min)) {
             rep.violate(
@@ -604,6 +706,80 @@ fn check_completeness(
 }
 
 
+/// A template that differs from `tx` only in what reaches the body through a hash: metadata
+/// content or presence, redeemer data, the language of a plutus witness.  Compiling it right after
+/// `tx` on one instance is the history under which anything the instance keeps between two
+/// compilations (and keys too coarsely) shows up.
+fn sibling_template(tx: &tir::Tx, variant: u64) -> tir::Tx {
+    let mut s = tx.clone();
+    let bump = |e: &mut tir::Expression| match e {
+        tir::Expression::Number(n) => *n = n.wrapping_add(1),
+        tir::Expression::Bytes(b) => b.push(0x5A),
+        tir::Expression::String(x) => x.push('x'),
+        tir::Expression::Struct(st) => st.constructor = (st.constructor + 1) % 5,
+        other => *other = tir::Expression::Number(7),
+    };
+    match variant % 4 {
+        0 => {
+            if let Some(m) = s.metadata.first_mut() {
+                bump(&mut m.value);
+            } else {
+                s.metadata.push(tir::Metadata {
+                    key: tir::Expression::Number(674),
+                    value: tir::Expression::String("note".into()),
+                });
+            }
+        }
+        1 => {
+            if s.metadata.is_empty() {
+                s.metadata.push(tir::Metadata {
+                    key: tir::Expression::Number(1),
+                    value: tir::Expression::Number(1),
+                });
+            } else {
+                s.metadata.clear();
+            }
+        }
+        2 => {
+            let mut done = false;
+            for i in s.inputs.iter_mut() {
+                if !i.redeemer.is_none() {
+                    bump(&mut i.redeemer);
+                    done = true;
+                }
+            }
+            for m in s.mints.iter_mut().chain(s.burns.iter_mut()) {
+                if !m.redeemer.is_none() {
+                    bump(&mut m.redeemer);
+                    done = true;
+                }
+            }
+            if !done {
+                if let Some(m) = s.metadata.first_mut() {
+                    bump(&mut m.value);
+                }
+            }
+        }
+        _ => {
+            let mut done = false;
+            for a in s.adhoc.iter_mut() {
+                if a.name == "plutus_witness" {
+                    if let Some(tir::Expression::Number(v)) = a.data.get_mut("version") {
+                        *v = if *v == 3 { 2 } else { 3 };
+                        done = true;
+                    }
+                }
+            }
+            if !done {
+                if let Some(m) = s.metadata.first_mut() {
+                    bump(&mut m.value);
+                }
+            }
+        }
+    }
+    s
+}
+
 /// R1 of C10: the constant TIR of the returned round is encoded once, then decoded and
 /// compiled in two fresh worlds with different hash seeds ("a second process") and twice
 /// on one instance; payload, hash and fee must be byte-identical.
@@ -620,6 +796,19 @@ fn check_repro(rep: &mut WorldReport, pp: &PPCfg, tx: &tir::Tx, original: &crate
                 let mut c = make_compiler(&pp);
                 let a = c.compile(&any).map_err(|e| format!("{e:?}"))?;
                 let b = c.compile(&any).map_err(|e| format!("{e:?}"))?;
+                // history on the instance: a sibling template right after, against a fresh instance
+                let AnyTir::V1Beta0(plain) = &any;
+                let sib = AnyTir::V1Beta0(sibling_template(plain, seed));
+                let used = c.compile(&sib).map(|x| x.payload).map_err(|e| first_ident(&format!("{e:?}")));
+                let fresh = make_compiler(&pp).compile(&sib).map(|x| x.payload).map_err(|e| first_ident(&format!("{e:?}")));
+                if used != fresh {
+                    return Err("SIBLING".to_string());
+                }
+                // and the template itself once more, now after the sibling
+                let again = c.compile(&any).map_err(|e| format!("{e:?}"))?;
+                if again.payload != a.payload {
+                    return Err("AFTER-SIBLING".to_string());
+                }
                 Ok::<_, String>((crate::compiler::copy_compiled(&a), crate::compiler::copy_compiled(&b)))
             })
         })
@@ -654,8 +843,210 @@ fn check_repro(rep: &mut WorldReport, pp: &PPCfg, tx: &tir::Tx, original: &crate
             }
         }
         (Err(p), _) | (_, Err(p)) => panic_violation(rep, &p, ctx),
+        (Ok(Err(e)), _) | (_, Ok(Err(e))) if e == "SIBLING" || e == "AFTER-SIBLING" => {
+            rep.violate(
+                "C10",
+                "R1-repro",
+                if e == "SIBLING" { "sibling-after-template-on-one-instance" } else { "template-after-sibling-on-one-instance" },
+                format!("{ctx}: a template compiled on an instance that has just compiled a sibling template (same body up to metadata / redeemer / witness language) gives a different payload than on a fresh instance"),
+            );
+        }
         (Ok(Err(e)), _) | (_, Ok(Err(e))) => {
             rep.violate("C10", "R1-repro", "recompile-failed", format!("{ctx}: the template the resolver compiled cannot be compiled again after an encode/decode round trip: {e}"));
         }
     }
+}
+
+// ---------------------------------------------------------------- examples through the resolver (C14)
+
+/// C14 only: a transaction of one of the example programs (language features the generator does
+/// not write: variants, maps, concat, locals, env, literal refs, policies with scripts) resolved
+/// end to end with type-directed, boundary-heavy arguments against a small ledger that holds
+/// UTxOs at every address handed in, under the same fault strata as the generated worlds.
+pub fn world_examples(_tier: Tier, world_no: u64, mut tape: Tape) -> WorldReport {
+    let hseed = tape.draw(1 << 32);
+    crate::entropy::in_world(hseed, move || {
+        let mut rep = WorldReport {
+            world: world_no,
+            ..Default::default()
+        };
+        if let Err(p) = guarded(|| inner_examples(world_no, tape, &mut rep)) {
+            rep.harness_error = Some(format!("harness panic: {} at {}:{}", p.message, p.file, p.line));
+        }
+        rep
+    })
+}
+
+fn inner_examples(world_no: u64, mut t: Tape, rep: &mut WorldReport) {
+    use tx3_tir::model::core::Type;
+    use tx3_tir::reduce::ArgValue;
+    let examples = crate::p_entropy::example_sources();
+    if examples.is_empty() {
+        rep.harness_error = Some("no example programs under /repo/examples".into());
+        return;
+    }
+    let (name, source) = examples[(world_no as usize / 8) % examples.len()].clone();
+    let lowered = match guarded(|| crate::front::lower_all(&source)) {
+        Ok(Ok(x)) if !x.is_empty() => x,
+        _ => {
+            rep.sample = Some(json!({"program": name, "skipped": "front end does not take this example"}));
+            rep.tape = t.data.clone();
+            return;
+        }
+    };
+    let names: Vec<&String> = lowered.keys().collect();
+    let txname = names[t.index(names.len())].clone();
+    let tx0 = lowered[&txname].clone();
+    let mut pp = draw_pparams(&mut t, true);
+    pp.mainnet = t.chance(1, 4);
+    if t.chance(1, 6) {
+        for v in 0..3 {
+            pp.cost_models[v] = t.chance(1, 2);
+        }
+    }
+    let max_rounds = *t.pick(&[3usize, 0, 5, 10]);
+    let (faults, stratum) = draw_faults(&mut t, "C14");
+
+    // ---- ledger: UTxOs at a few addresses, with tokens and datums of several shapes
+    let mut world = World::new(Tape::replay(vec![]));
+    let addrs: Vec<Vec<u8>> = (0..3).map(|i| addr_for(i, pp.mainnet, t.chance(1, 4))).collect();
+    let n = 1 + t.index(8);
+    for _ in 0..n {
+        let mut v = Value::new();
+        let l = match t.draw(3) {
+            0 => draw_lovelace(&mut t, &AmountDist::Comfortable),
+            1 => draw_lovelace(&mut t, &AmountDist::Tight),
+            _ => draw_lovelace(&mut t, &AmountDist::Boundary),
+        };
+        if l != 0 {
+            v.insert(None, l);
+        }
+        if t.chance(1, 3) {
+            let pol: Vec<u8> = vec![*t.pick(&[0x11u8, 0xAB, 0x6b]); *t.pick(&[28usize, 28, 5])];
+            v.insert(Some((pol, t.pick(&[&b"MYTOKEN"[..], b"", b"ABC"]).to_vec())), 1 + t.draw(200) as i128);
+        }
+        let datum = match t.draw(5) {
+            0 => None,
+            1 => Some(tir::Expression::Number(int_boundary(&mut t))),
+            2 => Some(tir::Expression::Struct(tir::StructExpr {
+                constructor: t.draw(3) as usize,
+                fields: vec![
+                    tir::Expression::Number(t.draw(100) as i128),
+                    tir::Expression::Bytes(t.bytes(4)),
+                    tir::Expression::Bytes(t.bytes(28)),
+                    tir::Expression::List(vec![tir::Expression::Number(1), tir::Expression::Number(2)]),
+                    tir::Expression::Map(vec![(tir::Expression::Number(1), tir::Expression::Bytes(vec![1]))]),
+                ],
+            })),
+            3 => Some(tir::Expression::Struct(tir::StructExpr {
+                constructor: 0,
+                fields: vec![],
+            })),
+            _ => Some(tir::Expression::List(vec![])),
+        };
+        let a = addrs[t.index(addrs.len())].clone();
+        world.chain.create(a, v, datum);
+    }
+    world.addr_pool = addrs.clone();
+    let mut pool: Vec<Value> = vec![];
+    for amt in [2_000_000i128, 50_000_000] {
+        let mut v = Value::new();
+        v.insert(None, amt);
+        pool.push(v);
+    }
+    world.value_pool = pool;
+
+    // ---- type-directed arguments
+    let params = tx3_tir::reduce::find_params(&tx0);
+    let mut args = ArgMap::new();
+    let mut shown = BTreeMap::new();
+    let refs: Vec<RefKey> = world.chain.utxos.keys().cloned().collect();
+    for (k, ty) in &params {
+        if t.chance(1, 25) {
+            continue; // a client may leave one out
+        }
+        let v = match ty {
+            Type::Int => ArgValue::Int(if t.chance(1, 2) { int_boundary(&mut t) } else { *t.pick(&[2_000_000i128, 1, 0, 100, 5]) }),
+            Type::Bool => ArgValue::Bool(t.chance(1, 2)),
+            Type::Bytes => {
+                let n = *t.pick(&[28usize, 0, 1, 4, 27, 29, 32, 33, 64]);
+                ArgValue::Bytes(t.bytes(n))
+            }
+            Type::Address => {
+                if t.chance(1, 8) {
+                    let n = *t.pick(&[0usize, 1, 28, 29, 57, 58, 100]);
+                    ArgValue::Address(t.bytes(n))
+                } else {
+                    ArgValue::Address(addrs[t.index(addrs.len())].clone())
+                }
+            }
+            Type::UtxoRef => {
+                if !refs.is_empty() && !t.chance(1, 4) {
+                    ArgValue::UtxoRef(unrk(&refs[t.index(refs.len())]))
+                } else {
+                    let n = *t.pick(&[32usize, 0, 31, 33]);
+                    ArgValue::UtxoRef(unrk(&(t.bytes(n), 0)))
+                }
+            }
+            Type::Undefined => ArgValue::String("x".into()),
+            _ => continue,
+        };
+        shown.insert(k.clone(), format!("{v:?}").chars().take(80).collect::<String>());
+        args.insert(k.clone(), v);
+    }
+
+    world.cfg = faults.clone();
+    world.tape = t;
+    let ledger = world.chain.describe();
+    let w = world.into_shared();
+    let mut comp = SimCompiler::new(make_compiler(&pp));
+    comp.record = false;
+    let nres = 1 + w.lock().unwrap().tape.index(2);
+    let mut outcomes = vec![];
+    for ri in 0..nres {
+        let cancel_after = {
+            let mut g = w.lock().unwrap();
+            if stratum == "faults" && g.tape.chance(1, 6) {
+                Some(1 + g.tape.draw(24) as u32)
+            } else {
+                None
+            }
+        };
+        let res = resolve_once(&w, &tx0, &args, &mut comp, max_rounds, cancel_after);
+        let ctx = format!("`{name}`/{txname}, resolution {ri}");
+        if comp.overrun {
+            rep.violate("C14", "P3-hang", "resolve_tx-runs-past-its-round-cap", format!("{ctx}: resolve_tx ran past its round cap"));
+        }
+        match &res.outcome {
+            Outcome::Panic(p) => panic_violation(rep, p, &ctx),
+            Outcome::Hung(s) => rep.violate("C14", "P3-hang", "resolve_tx", format!("{ctx}: {s}")),
+            _ => {}
+        }
+        outcomes.push(res.outcome.kind());
+        w.lock().unwrap().drain_events();
+    }
+    let g = w.lock().unwrap();
+    rep.digest = g.log.digest.0;
+    rep.events = g.log.n;
+    rep.ticks = g.now;
+    rep.stub_calls = g.calls;
+    for (k, v) in &g.fired {
+        *rep.fired.entry(k.to_string()).or_insert(0) += v;
+    }
+    rep.fire("example-through-resolver");
+    rep.evaluations = nres as u64;
+    rep.nontrivial = true;
+    rep.sig = crate::tape::mix_str(world_no % 64, &outcomes.join(",").chars().take(40).collect::<String>());
+    rep.sample = Some(json!({
+        "engine": "resolver-sim (example program end to end)",
+        "program": name,
+        "tx": txname,
+        "stratum": stratum,
+        "faults": faults.describe(),
+        "pparams": pp.describe(),
+        "args": shown,
+        "ledger": ledger,
+        "outcomes": outcomes,
+    }));
+    rep.tape = g.tape.data.clone();
 }
